@@ -103,3 +103,38 @@ def EMITC(n: int, t: str, w: str, g: bool, opt: bool, dk: str, sel: bool, v: obj
     if is_dict(v):
         return ENTRIES(n, mk, mv, ks, vs, cn)
     return RECS(n, t, ENCP(t, w, v), (is_msg(v) and vsow) or (is_str(v) and as_str(v) == "" and sel) or g or opt, w)
+
+
+# ---------------------------------------------------------------------------------------------------
+# property-level presence (C06), transcribed from the statement / DESIGN App. C.3 -- NOT from the code
+# ---------------------------------------------------------------------------------------------------
+def PRESENT(g: bool, opt: bool, dk: str, sel: bool, v: object, vsow: bool, cn: int) -> bool:
+    """the field is present: oneof member -> selected; proto3 optional / wrapper -> not None; plain sub-message ->
+    serialized_on_wire; repeated / map -> non-empty; implicit-presence scalar -> not the default value"""
+    if is_none(v):
+        return False
+    if g:
+        return sel
+    if opt:
+        return True
+    if dk == "none":
+        return True
+    if dk == "message":
+        return vsow
+    if dk == "list" or dk == "dict":
+        return cn > 0
+    return not ISDEF(dk, v, cn)
+
+
+def EMITP(n: int, t: str, w: str, g: bool, opt: bool, dk: str, sel: bool, v: object, vsow: bool, cn: int,
+          xs: "objseq", ks: "objseq", vs: "objseq", mk: str, mv: str) -> bytes:
+    """what the protobuf encoding rules emit for a field: nothing if absent, else its record(s)"""
+    if not PRESENT(g, opt, dk, sel, v, vsow, cn):
+        return b""
+    if is_list(v):
+        if IS_PACKED_KIND(t):
+            return RECS(n, "bytes", PACKED(t, xs, cn), False, "")
+        return ITEMS(n, t, w, xs, cn)
+    if is_dict(v):
+        return ENTRIES(n, mk, mv, ks, vs, cn)
+    return RECS(n, t, ENCP(t, w, v), True, w)
